@@ -181,10 +181,6 @@ func runC05(r *simrt.Run, tier Tier) Outcome {
 		}
 		a, b := DiffSets(first.Facts, res.Facts)
 		if len(a)+len(b) > 0 {
-			if x, y, ok := HashCollision(first.Hashes, res.Hashes); ok {
-				r.Logf("known hash-conflation domain: %s / %s", x, y)
-				return Outcome{Discard: "known:hash-collision"}
-			}
 			return Violation("C05/facts-differ", "%s and %s disagree\nonly in first: %v\nonly in second: %v\nprogram:\n%s\npresented:\n%s",
 				firstDesc, desc, a, b, src, v.Prog.Source(true))
 		}
